@@ -24,8 +24,8 @@ pub fn def() -> PropDef {
     panic_policy: PanicPolicy::Count,
     rule: "random ASCII texts T and consistent maps M (sorted segments inside T, 1-field segments, several per line, empty lines, partial coverage, zero-width segments at end of line/text, sourceRoot absent/\"\"/\"r\"/\"r/\", 1-3 sources, 0-3 names); the same (T, M) is served by SourceMapSource, by a user-defined source through stream_chunks_default with &str and with a multi-piece Rope, and through map() of an enclosing ConcatSource; all four (columns, final_source) variants are compared per character with the reference lookup in M; non-trivial = M has >= 2 mapped segments on characters of T and >= 1 unmapped character; distinct = case fingerprint",
     cases: |t| match t {
-      Tier::Quick => 30_000,
-      Tier::Thorough => 500_000,
+      Tier::Quick => 100_000,
+      Tier::Thorough => 1_500_000,
     },
   }
 }
